@@ -49,9 +49,17 @@ def run(ctx):
 
     ln, en = m.fn(V + "varint_len"), m.fn(V + "encode_varint")
     cl, ce, cd = cond_consts(ln), cond_consts(en), cond_consts(d)
+    rl, re_ = ret_consts(ln), ret_consts(en)
+    # an encoder that dispatches on varint_len(value) and returns that length inherits the length function's thresholds and lengths
+    delegating = any(c.name == V + "varint_len" for c in en.calls) and not [x for x in ce if x[0] in ("Le", "Lt")] and not re_
+    if delegating:
+        lens = sorted({v for _, arms, _, _ in codec.int_switches(en, 3) for v in arms})
+        if not lens or not set(lens) <= set(rl):
+            raise CheckError("encode_varint dispatches on varint_len but its arms %s are not lengths %s" % (lens, rl))
+        ctx.note("encode_varint dispatches on varint_len(): thresholds and lengths are those of varint_len")
+        ce, re_ = cl, rl
     ctx.ob("V2.THRESHOLDS", "varint_len~encode_varint", cl == ce and len(cl) >= 5, "thresholds %s" % [c for _, c in cl] if cl == ce else
            "length function branches on %s, encoder on %s" % (cl, ce), ln.loc())
-    rl, re_ = ret_consts(ln), ret_consts(en)
     ctx.ob("V2.LENGTHS", "varint_len~encode_varint", rl == re_ and len(rl) >= 6, "lengths %s" % rl if rl == re_ else
            "length function yields %s, encoder returns %s" % (rl, re_), en.loc())
     consumed = sorted(v for bb in range(len(d.blocks)) for s in d.blocks[bb]["s"]
